@@ -48,8 +48,7 @@ def run(rep, tier, seed):
               "tracer vsym/sym.h; engine/alg.py; z3 (validation threshold reading)")
     rep.assume("NOT decided: 'equal to the precision of the narrower type' for cast<>() (needs rounding)",
                "angles are compared modulo 2*pi: angle() == a is claimed for a in (-pi, pi)")
-    rep.not_run.append("Eigen isometry constructors of SE3 / SE_2_3 / SGal3 (Eigen::Quaternion(Matrix3), Shepperd branches): "
-                       "needs ideal membership modulo the SO(3) relations of a symbolic rotation matrix - not attempted")
+    rep.not_run.append("Eigen isometry constructors of SE_2_3 / SGal3 (same Eigen::Quaternion(Matrix3) kernel as SE3's, which is under contract)")
     for g in groups:
         if g in errs or g in errs2:
             e = errs.get(g) or errs2.get(g)
@@ -155,6 +154,22 @@ def check_group(rep, g, seed):
     if fam in QUAT:
         HARNESS.prefetch(g, ["ctor_quat", "ctor_angleaxis", "ctor_rpy"])
         quat_ctors(rep, g, seed)
+    if fam == "SE3":
+        # Eigen isometry -> element: Eigen::Quaternion(Matrix3) (Shepperd branches), for the rotation matrix of EVERY unit quaternion
+        HARNESS.prefetch(g, ["ctor_isometry"])
+        n = 0
+        for c in _paths(rep, HARNESS, g, "ctor_isometry", [("x", "G")], seed):
+            if c.feasible() == "no":
+                continue
+            if c.path.thrown:
+                c.must_not_throw()
+                continue
+            n += 1
+            c.eq("from_isometry_same_transformation", c.spec.T(c.vec("X")), c.spec.T(c.E["x"]))
+            ve = c.spec.valid_eqs(c.vec("X"))
+            c.eq("from_isometry_valid", np.array(ve, dtype=object), _zero(c, len(ve)))
+        if n == 0:
+            rep.undecide("C13/%s/ctor_isometry/paths" % g, "FEAS", "z3", "no feasible path")
 
 
 def cast_widening(rep, g, seed):
